@@ -462,10 +462,6 @@ class OnePortTranslator:
             self.translate_leaf(c)
         for c in ('Xtal', 'FerriteBead'):
             # expand tree needs the basic leaves
-            lc0 = LeafClass(c)
-            owner, fn = self.method(c, '__init__')
-            names = [x.arg for x in fn.args.args][1:]
-            env_attrs = {}
             self.translate_leaf_compound(c)
         # the flags a ParSer node computes from its arguments
         self.normal['Ser.impedance'] = self.sum_form('Ser', 'impedance')
@@ -631,6 +627,14 @@ class OnePortTranslator:
                 arms.append('  | %s => Some %s' % (pat(lc), lc.expand_call))
         arms.append('  | _ => None')
         o.append('Definition nexpand (l : lf) : option (tree lf) :=\n  match l with\n' + '\n'.join(arms) + '\n  end.\n')
+        # class tag and constructor arguments (structural comparison in the correspondence evaluation)
+        arms = ['  | %s => %d%%nat' % (pat(self.leaves[c]), k) for k, c in enumerate(self.order)]
+        o.append('Definition ctag (l : lf) : nat :=\n  match l with\n' + '\n'.join(arms) + '\n  end.\n')
+        arms = []
+        for c in self.order:
+            lc = self.leaves[c]
+            arms.append('  | %s => [%s]' % (pat(lc), '; '.join(('Some a_%s' % n) if t == 'K' else ('a_' + n) for n, t in lc.params)))
+        o.append('Definition largs (l : lf) : list (option K) :=\n  match l with\n' + '\n'.join(arms) + '\n  end.\n')
         # public attributes used by _combine
         for attr, cl in (('_R', 'R'), ('_G', 'G'), ('L', 'L'), ('i0', 'L'), ('C', 'C'), ('v0', 'C'), ('v0', 'Vdc'), ('i0', 'Idc')):
             lc = self.leaves[cl]
@@ -642,7 +646,10 @@ class OnePortTranslator:
         o.append('')
         o.append('(* normal forms of the one-line methods: %s *)' % self.normal)
         o.append('End Gen.\n')
-        for nm in ['odef', 'is_some', 'eq0']:
+        for nm in ['odef', 'is_some', 'eq0', 'ld0', 'ld', 'has_src', 'is_vsrc', 'is_isrc', 'has_ic', 'zeroic', 'gl',
+                   'nkind_of', 'nleaf', 'nexpand', 'ctag', 'largs'] + ['L_' + c for c in self.order] + \
+                ['expand_' + c for c in self.order if self.leaves[c].expand] + \
+                ['attr_R_R', 'attr_G_G', 'attr_L_L', 'attr_L_i0', 'attr_C_C', 'attr_C_v0', 'attr_Vdc_v0', 'attr_Idc_i0']:
             o.append('Arguments %s {K}.' % nm)
         return '\n'.join(o) + '\n'
 
